@@ -247,7 +247,7 @@ func ResolvePatterns(pkgDir string, patterns []string) ([]FileData, error) {
 			return nil, wrapErr(fmt.Errorf("invalid pattern syntax"))
 		}
 
-		absPattern := filepath.Join(pkgDir, filepath.FromSlash(pat))
+		absPattern := filepath.Join(quoteGlob(pkgDir), filepath.FromSlash(pat))
 		matches, _ := filepath.Glob(absPattern)
 
 		listCount := 0
@@ -324,6 +324,23 @@ func ResolvePatterns(pkgDir string, patterns []string) ([]FileData, error) {
 		out = append(out, FileData{Name: name, Data: seen[name]})
 	}
 	return out, nil
+}
+
+// quoteGlob returns s with all glob meta characters quoted
+// (as cmd/go/internal/str.QuoteGlob; backslash is not quoted).
+func quoteGlob(s string) string {
+	if !strings.ContainsAny(s, `*?[]`) {
+		return s
+	}
+	var sb strings.Builder
+	for _, c := range s {
+		switch c {
+		case '*', '?', '[', ']':
+			sb.WriteByte('\\')
+		}
+		sb.WriteRune(c)
+	}
+	return sb.String()
 }
 
 func ValidPattern(pattern string) bool {
